@@ -376,6 +376,18 @@ func HostileValues() []interface{} {
 		struct{ P **int }{nil}, struct{ E error }{nil}, struct{ T time.Time }{time.Unix(5, 0)}, struct{ T *time.Time }{nil},
 		reflect.ValueOf(3), []interface{}{1, 2},
 		cyclicMap(1), cyclicMap(3), mutualMaps(), cyclicSlice(), struct{ M map[string]interface{} }{cyclicMap(2)},
+		// cyclic and unrepresentable members *inside* slices, arrays and nested documents
+		struct {
+			F0    string
+			Items []interface{}
+		}{"x", []interface{}{"a", cyclicMap(1), selfSlice(), func() {}, make(chan int), mutualMaps()}},
+		map[string]interface{}{"F0": 1, "Items": []interface{}{cyclicMap(2), []interface{}{cyclicSlice()}}, "A": [2]interface{}{cyclicMap(1), selfSlice()}},
+		&struct {
+			F0 int
+			A  []map[string]interface{}
+			M  map[string][]interface{}
+		}{1, []map[string]interface{}{cyclicMap(1), nil}, map[string][]interface{}{"k": selfSlice()}},
+		cyclicStruct(), []interface{}{selfSlice()}, map[string]interface{}{"F0": cyclicStruct(), "F1": []interface{}{cyclicStruct()}},
 	}
 }
 
@@ -405,4 +417,27 @@ func cyclicSlice() map[string]interface{} {
 	m["F1"] = s
 	s[0] = s
 	return m
+}
+
+// selfSlice is a slice whose first member is the slice itself.
+func selfSlice() []interface{} {
+	s := make([]interface{}, 2)
+	s[0], s[1] = s, "tail"
+	return s
+}
+
+type ring struct {
+	Name string
+	Next *ring
+	Kids []*ring
+	Any  interface{}
+}
+
+// cyclicStruct is a struct reachable from itself through a pointer, a slice and an interface.
+func cyclicStruct() *ring {
+	r := &ring{Name: "r"}
+	r.Next = r
+	r.Kids = []*ring{r}
+	r.Any = r
+	return r
 }
